@@ -12,6 +12,7 @@ import (
 	"strconv"
 	"strings"
 	"testing"
+	"time"
 
 	"github.com/bluenviron/gortsplib/v5/pkg/description"
 	"github.com/bluenviron/gortsplib/v5/pkg/format"
@@ -32,6 +33,16 @@ type vf23UnitCase struct {
 	Class string `json:"class"`
 	N     int    `json:"n"`
 	Size  int    `json:"size"`
+	Pub   int    `json:"pub"` // RTP branches: the maximum payload size of the publisher's packetizer for this frame
+}
+
+// vf23Emit is what one call of writeUnitInner handed to the output (RTSP stream and readers).
+type vf23Emit struct {
+	Unit    int       `json:"unit"`   // index of the case unit the call belongs to
+	Active  bool      `json:"active"` // the format's RTP encoder existed after the call
+	NilP    bool      `json:"nilp"`   // the unit left with no payload
+	Uniform bool      `json:"uniform"`
+	Pkts    []vf23Pkt `json:"pkts"`
 }
 
 type vf23Pkt struct {
@@ -57,6 +68,7 @@ type vf23Unit struct {
 	PSig      []vf23Sig `json:"psig"`
 	DSig      []vf23Sig `json:"dsig"`
 	DErrs     []string  `json:"derrs"` // errors of the depacketizer other than "more packets needed"
+	InPkts    int       `json:"inPkts"` // RTP branches: number of packets the publisher sent for the frame
 }
 
 func vf23Format(codec, branch string) format.Format {
@@ -172,6 +184,13 @@ func vf23Payload(codec string, uc vf23UnitCase, seed byte) (unit.Payload, []int)
 	sizes := []int{}
 	for i := 0; i < uc.N; i++ {
 		e := vf23Elem(codec, uc.Size, seed+byte(i))
+		if uc.Class == "aud" { // an access unit delimiter alone: stripped by the unit remuxer
+			if codec == "H264" {
+				e = []byte{0x09, 0xf0}
+			} else {
+				e = []byte{0x46, 0x01, 0x50}
+			}
+		}
 		elems = append(elems, e)
 		sizes = append(sizes, len(e))
 	}
@@ -277,24 +296,76 @@ func TestVerif_C23_Runs(t *testing.T) {
 		if ssf == nil {
 			t.Fatalf("run %d: no subStreamFormat", c.ID)
 		}
-		// the publisher's packetizer for the RTP branches: the same kind of encoder, larger maximum
-		var inEnc rtpEncoder
+		// the publisher of the RTP branches: for every frame a packetizer of the same kind with the
+		// frame's own maximum (case field pub) that continues the publisher's sequence numbers
 		inOff := uint32(0x9abc0000 + nrun*7919)
-		if c.Branch != "nonrtp" {
-			inMax := c.M + 300
-			if c.Branch == "remux" {
-				inMax = 3*c.M + 600 // single NAL unit packets, as packetization-mode 0 requires
-			}
-			var err error
-			inEnc, err = newRTPEncoder(ssf.streamFormat.outFormat, inMax, new(uint32(0x11223344)), new(uint16(65530)))
-			if err != nil {
-				t.Fatalf("run %d: %v", c.ID, err)
-			}
-		}
+		inSeq := uint16(65530)
 		// the depacketizer that judges the generated packets
 		dec, err := newRTPDecoder(ssf.streamFormat.outFormat)
 		if err != nil {
 			t.Fatalf("run %d: %v", c.ID, err)
+		}
+		// a second one that reads everything emitted while re-packetization is active as ONE stream
+		dec2, err := newRTPDecoder(ssf.streamFormat.outFormat)
+		if err != nil {
+			t.Fatalf("run %d: %v", c.ID, err)
+		}
+		// observe what every call hands to the output (streamFormat.writeRTSP is a func field)
+		origWriteRTSP := ssf.streamFormat.writeRTSP
+		var lastOut []*rtp.Packet
+		reached := false
+		ssf.streamFormat.writeRTSP = func(pkts []*rtp.Packet, ntp time.Time) {
+			lastOut, reached = pkts, true
+			origWriteRTSP(pkts, ntp)
+		}
+		emits := []vf23Emit{}
+		pel, del := [][]byte{}, [][]byte{}
+		derrs2 := []string{}
+		// call writes one unit and logs what left the format
+		call := func(k int, pts int64, u *unit.Unit) (panicked bool, msg string, err error) {
+			lastOut, reached = nil, false
+			panicked, msg = verifrt.Catch(func() { err = ssf.writeUnitInner(u) })
+			if panicked || err != nil || !reached {
+				return
+			}
+			e := vf23Emit{Unit: k + 1, Active: ssf.streamFormat.rtpEncoder != nil, NilP: u.NilPayload(),
+				Uniform: frameCodec[c.Codec], Pkts: []vf23Pkt{}}
+			if !u.NilPayload() {
+				el, _ := vf23Elems(u.Payload)
+				if !frameCodec[c.Codec] && len(el) <= 1 && len(lastOut) <= 1 {
+					e.Uniform = true
+				}
+				if e.Active {
+					for _, x := range el {
+						pel = append(pel, append([]byte{}, x...))
+					}
+				}
+			}
+			for _, pkt := range lastOut {
+				e.Pkts = append(e.Pkts, vf23Pkt{Len: len(pkt.Payload), Seq: int(pkt.SequenceNumber),
+					TsOff: strconv.FormatUint(uint64(pkt.Timestamp-uint32(pts)), 10)})
+				if !e.Active {
+					continue
+				}
+				var p unit.Payload
+				var derr error
+				pan, pmsg := verifrt.Catch(func() { p, derr = dec2.decode(pkt) })
+				switch {
+				case pan:
+					derrs2 = append(derrs2, "panic: "+pmsg)
+				case derr != nil:
+					if !strings.Contains(derr.Error(), "more packets") {
+						derrs2 = append(derrs2, derr.Error())
+					}
+				case p != nil:
+					el, _ := vf23Elems(p)
+					for _, x := range el { // copy: some depacketizers return their internal buffer
+						del = append(del, append([]byte{}, x...))
+					}
+				}
+			}
+			emits = append(emits, e)
+			return
 		}
 
 		pts := ptsBases[nrun%len(ptsBases)]
@@ -308,7 +379,7 @@ func TestVerif_C23_Runs(t *testing.T) {
 			var delivered *unit.Unit
 			if c.Branch == "nonrtp" {
 				u := &unit.Unit{PTS: pts, Payload: payload}
-				p, msg := verifrt.Catch(func() { err = ssf.writeUnitInner(u) })
+				p, msg, err := call(k, pts, u)
 				if p {
 					ou.Err, ou.Msg = true, "panic: "+msg
 				} else if err != nil {
@@ -318,14 +389,20 @@ func TestVerif_C23_Runs(t *testing.T) {
 					ou.Generated = ssf.streamFormat.rtpEncoder != nil
 				}
 			} else {
+				inEnc, err2 := newRTPEncoder(ssf.streamFormat.outFormat, uc.Pub, new(uint32(0x11223344)), new(inSeq))
+				if err2 != nil {
+					t.Fatalf("run %d: %v", c.ID, err2)
+				}
 				inPkts, err2 := inEnc.encode(payload)
 				if err2 != nil {
 					ou.Err, ou.Msg = true, "publisher packetizer: "+err2.Error()
 				}
+				inSeq += uint16(len(inPkts))
+				ou.InPkts = len(inPkts)
 				for _, pkt := range inPkts {
 					pkt.Timestamp += inOff + uint32(pts)
 					u := &unit.Unit{PTS: pts, RTPPackets: []*rtp.Packet{pkt}}
-					p, msg := verifrt.Catch(func() { err = ssf.writeUnitInner(u) })
+					p, msg, err := call(k, pts, u)
 					if p {
 						ou.Err, ou.Msg = true, "panic: "+msg
 						break
@@ -386,6 +463,7 @@ func TestVerif_C23_Runs(t *testing.T) {
 			}
 			units = append(units, ou)
 		}
-		out.Emit(map[string]any{"id": c.ID, "codec": c.Codec, "branch": c.Branch, "m": c.M, "units": units})
+		out.Emit(map[string]any{"id": c.ID, "codec": c.Codec, "branch": c.Branch, "m": c.M, "units": units,
+			"emits": emits, "pel": vf23SigOf(pel), "del": vf23SigOf(del), "derrs2": derrs2})
 	})
 }
